@@ -79,7 +79,7 @@ def argTok? : Sx → Option ArgTok
 
 def nthEntry? : Sx → Option NthRes
   | .atom "none" => some .none
-  | .atom "err" => some .raised
+  | .list [.atom "err", c] => (str? c).map .raised
   | .list [a, b] => do pure (.val (← a.int?) (← b.int?))
   | _ => none
 
@@ -305,7 +305,7 @@ def handle (cmd : String) (args : List Sx) : Option String :=
   | "parsesel", [.list toks] => do
     match parsePageSelectors (← allSome tok? toks) with
     | .reject => pure "none"
-    | .raised => pure "err:AttributeError"
+    | .raised cls => pure ("err:" ++ cls)
     | .ok l => pure ("(" ++ " ".intercalate (l.map showSel) ++ ")")
   -- _page_type_match
   | "match", [s, p] => do
